@@ -354,9 +354,10 @@ func (e *storeEnv) rawCount(n string) int {
 // ---------------------------------------------------------------- history replay
 
 type storeStep struct {
-	Op   string            `json:"op"`
-	Nid  string            `json:"nid"`
-	Args []json.RawMessage `json:"args"`
+	Op    string            `json:"op"`
+	Nid   string            `json:"nid"`
+	Args  []json.RawMessage `json:"args"`
+	Fault bool              `json:"fault"` // the first statement that writes relationships fails
 }
 
 type storeHistory struct {
@@ -379,6 +380,7 @@ type storeStepOut struct {
 	Reply     []any          `json:"reply"`
 	After     map[string]any `json:"after"`
 	Raw       map[string]int `json:"raw"`
+	FaultHit  bool           `json:"fault_hit"`
 	ROChanged bool           `json:"ro_changed"` // a read operation changed the byte-level dump
 	MChanged  bool           `json:"m_changed"`  // the mirror network's rows changed
 	Probes    int            `json:"probes"`
@@ -406,6 +408,10 @@ func (e *storeEnv) step(si int, st storeStep, pageSize int) storeStepOut {
 	var before string
 	if st.Op == "list" || st.Op == "check" {
 		before = e.dumpHash()
+	}
+	if st.Fault {
+		sqlCtl.beginTableFault("keto_relation_tuples")
+		defer func() {}()
 	}
 	switch st.Op {
 	case "create":
@@ -501,6 +507,9 @@ func (e *storeEnv) step(si int, st storeStep, pageSize int) storeStepOut {
 		}
 	default:
 		e.t.Fatalf("unknown op %q", st.Op)
+	}
+	if st.Fault {
+		o.FaultHit = sqlCtl.endTableFault()
 	}
 	if before != "" && e.dumpHash() != before {
 		o.ROChanged = true
